@@ -369,7 +369,7 @@ def main():
         "violations": 1 if violation else 0,
     }
     if prop == "C18":
-        ev["coverage"]["baseline"] = {"scripts_per_variant": 787, "description": "all words over {EINTR,EAGAIN} of length 0..5 x 7 terminals (441) + homogeneous runs of 7..4096 EINTR or EAGAIN x {success, EIO} (84) + every errno 1..133 other than EINTR/EAGAIN as the permanent error, alone and after EAGAIN EINTR (262)", "exhaustive_in_every_variant": all(v["baseline_exhaustive"] for v in per_variant) if per_variant else False}
+        ev["coverage"]["baseline"] = {"scripts_per_variant": 795, "description": "all words over {EINTR,EAGAIN} of length 0..5 x 7 terminals (441) + homogeneous runs of 7..100000 EINTR or EAGAIN x {success, EIO} (92) + every errno 1..133 other than EINTR/EAGAIN as the permanent error, alone and after EAGAIN EINTR (262)", "exhaustive_in_every_variant": all(v["baseline_exhaustive"] for v in per_variant) if per_variant else False}
     if prop == "C16":
         ev["coverage"]["baseline"] = {"description": "all op sequences of length <= %d over a 10-letter alphabet, prod variant" % (5 if tier == "thorough" else 4), "exhaustive": bool(per_variant and per_variant[0]["baseline_exhaustive"])}
     if side is not None:
